@@ -87,7 +87,8 @@ ASSUMPTIONS = [
     "then on the file (PenlogReader decodes it; records == every record >= DEBUG emitted on the 'gallia' logger while the handler was "
     "attached, in order). A handler still open at that moment is not counted as closed: the only thing left to close it is "
     "logging.shutdown() at interpreter exit, which deadlocks with the writer thread when a record is still queued (seen in 2 of 20 fresh runs)",
-    "a non-daemon thread (aiosqlite worker of a connection left open) that survives asyncio.run() means the interpreter cannot exit",
+    "a database connection that is still open when asyncio.run() ends (its aiosqlite worker is a non-daemon thread) or any other "
+    "surviving non-daemon thread means the interpreter cannot exit",
     "the in-memory transport / fake ECU, the tracing DBHandler subclass (delegates to the real one) and the hook scripts are harness",
     "UDSScanner cases run with ping=False and tester_present_interval=60 (avoids 0.5 s real sleeps; thorough adds ping=True cases)",
 ]
@@ -861,7 +862,15 @@ def judge(case: dict[str, Any], d: Path, obs: dict[str, Any], f: dict[str, Any])
             want = exp.codes[0]
         else:
             want = proc
-    if obs["threads"]:
+    if obs["db_connection_left_open"]:
+        # judged on the deterministic cause, not on thread liveness: the worker of an aiosqlite connection that is never
+        # closed is a non-daemon thread waiting for work forever (it only goes away if it happens to crash because a
+        # query was in flight when the loop was closed)
+        v(
+            f"process-cannot-exit|{ctx}|cause=db-connection-left-open",
+            f"database connection still open after asyncio.run(): its non-daemon worker thread keeps the interpreter from exiting and delivering status {proc}",
+        )
+    elif obs["threads"]:
         names = ",".join(sorted({re.sub(r"[-_ ]?\d+.*$", "", t) for t in obs["threads"]}))
         v(
             f"process-cannot-exit|{ctx}|thread={names}",
@@ -1163,6 +1172,8 @@ def run_fresh(item: tuple[Any, ...], res: Result) -> None:
     res.count("evaluations")
     res.count("fresh_interpreter_conformance_runs")
     predicted: set[Any] = {"hang"} if obs["threads"] else {obs["proc_code"]}
+    if obs["db_connection_left_open"]:
+        predicted = {"hang", obs["proc_code"]}  # the worker thread may crash on the closed loop if a query was in flight
     if any(not z["closed"] for z in obs["zst"]):
         # a log handler that is still open at interpreter exit is closed by logging.shutdown(), which holds the
         # handler lock while _ZstdFileHandler.close() joins the writer thread: if that thread still has a record to
